@@ -34,6 +34,13 @@ def gen_case(r):
             gates.append(["Spawn", segs, ending, r.choice(["soon", "start"]), r.choice(["owner", "child", "direct"]), oncancel])
             live.append(n)
             n += 1
+        elif k < 0.36 and n < 7:
+            segs = r.choice([0, 1, 2])
+            ending = ["ERaise", 10 + n] if r.random() < 0.15 and verdict is not None else ["EReturn"]
+            oncancel = 50 + n if segs and r.random() < 0.2 else None
+            # [kind, segs, ending, how, from, oncancel, index of the task]
+            gates.append(["SpawnCancel", segs, ending, "soon", r.choice(["owner", "child", "direct"]), oncancel, n])
+            n += 1
         elif k < 0.75 and live:
             gates.append(["Task", r.choice(live)])
         elif k < 0.88 and live:
@@ -51,6 +58,14 @@ def gen_case(r):
     if r.random() < 0.5:
         gates.append(["Spawn", 1, ["EReturn"], r.choice(["soon", "start"]), "direct", None])   # after teardown: must fail
     return {"verdict": verdict, "nested": r.random() < 0.5, "gates": gates}
+
+
+def gates_term(g):
+    """the model gates one harness step stands for"""
+    if g[0] == "SpawnCancel":
+        # start_task_soon() and cancel() on the handle at once, before the task has run at all
+        return clist([gate_term(["Spawn"] + g[1:]), f"(GCancel {g[-1]})"])
+    return clist([gate_term(g)])
 
 
 def gate_term(g):
@@ -78,7 +93,7 @@ def obs_term(o):
 
 def case_term(r):
     v = {None: "None", True: "(Some true)", False: "(Some false)"}[r["verdict"]]
-    steps = clist(f"({gate_term(s['gate'])}, ({clist(obs_term(o) for o in s['obs'])}, {clist(map(str, s['live']))}))"
+    steps = clist(f"({gates_term(s['gate'])}, ({clist(obs_term(o) for o in s['obs'])}, {clist(map(str, s['live']))}))"
                   for s in r["steps"])
     return f"(FC {v} {steps})"
 
@@ -111,9 +126,10 @@ def oracle(r):
                             f"{sorted(spawned - finished)} were still running"))
         if s["gate"][0] == "Teardown":
             torn = True
-        if s["gate"][0] == "Cancel":
+        if s["gate"][0] in ("Cancel", "SpawnCancel"):
             hit = [o[1] for o in s["obs"] if o[0] == "CancelSeen"]
-            if any(h != s["gate"][1] for h in hit) and not crashed:
+            tgt_ = s["gate"][1] if s["gate"][0] == "Cancel" else s["gate"][6]
+            if any(h != tgt_ for h in hit) and not crashed:
                 bad.append(("C09:cancel-hit-others", f"step {i}: cancelling handle {s['gate'][1]} cancelled {hit}"))
         if sorted(spawned - finished) != s["live"] and not crashed:
             bad.append(("C09:handles", f"step {i} ({s['gate']}): all_task_handles() = {s['live']}, spawned and not "
@@ -123,7 +139,7 @@ def oracle(r):
     raising, oncancel = {}, {}
     k = 0
     for g in r["gates"]:
-        if g[0] == "Spawn":
+        if g[0] in ("Spawn", "SpawnCancel"):
             if g[2][0] == "ERaise":
                 raising[k] = g[2][1]
             if len(g) > 5 and g[5] is not None:
@@ -141,7 +157,7 @@ def oracle(r):
     went_down = None
     for s in r["steps"]:
         g = s["gate"]
-        if g[0] == "Spawn" and any(o[0] == "Spawned" for o in s["obs"]):
+        if g[0] in ("Spawn", "SpawnCancel") and any(o[0] == "Spawned" for o in s["obs"]):
             k = [o[1] for o in s["obs"] if o[0] == "Spawned"][0]
             beh[k] = (g[1], g[2])
             segs_done[k] = 0
@@ -150,15 +166,16 @@ def oracle(r):
                 segs_done[o[1]] = segs_done.get(o[1], 0) + 1
         raised_now = [k for k, (n, ending) in beh.items() if ending[0] == "ERaise" and segs_done.get(k) == n
                       and ((g[0] == "Task" and g[1] == k and any(o == ["Seg", k] for o in s["obs"]))
-                           or (g[0] == "Spawn" and n == 0 and ["Spawned", k, True] in s["obs"]))]
+                           or (g[0] in ("Spawn", "SpawnCancel") and n == 0 and ["Spawned", k, True] in s["obs"]))]
         for k, (n, ending) in beh.items():
             if ending[0] == "EReturn" and went_down is None and ["Ended", k] not in s["obs"] and (
                     (g[0] == "Task" and g[1] == k and segs_done.get(k) == n and ["Seg", k] in s["obs"])
-                    or (g[0] == "Spawn" and n == 0 and ["Spawned", k, True] in s["obs"])):
+                    or (g[0] in ("Spawn", "SpawnCancel") and n == 0 and ["Spawned", k, True] in s["obs"])):
                 bad.append(("C09:wait-finished", f"task {k} returned but wait_finished() did not return"))
         raised = [(k, beh[k][1][1]) for k in raised_now]
-        if g[0] == "Cancel" and g[1] in oncancel and ["CancelSeen", g[1]] in s["obs"]:
-            raised.append((g[1], oncancel[g[1]]))          # raises while unwinding from cancel()
+        tgt = g[1] if g[0] == "Cancel" else (g[6] if g[0] == "SpawnCancel" else None)
+        if tgt is not None and tgt in oncancel and ["CancelSeen", tgt] in s["obs"]:
+            raised.append((tgt, oncancel[tgt]))          # raises while unwinding from cancel()
         for k, e in raised:
             if went_down is not None:
                 continue
@@ -234,7 +251,7 @@ def run(ck: Check):
                 dist["cancels"] += o[0] == "CancelSeen"
                 dist["handler_calls"] += o[0] == "Handler"
                 dist["crashed"] += o[0] == "OwnerRaised"
-    distinct = {json.dumps([r["verdict"], r["gates"]]): sum(1 for g in r["gates"] if g[0] == "Spawn") >= 2 for r in results}
+    distinct = {json.dumps([r["verdict"], r["gates"]]): sum(1 for g in r["gates"] if g[0] in ("Spawn", "SpawnCancel")) >= 2 for r in results}
     ck.coverage.update({
         "evaluations": len(results),
         "distinct_nontrivial": sum(1 for v in distinct.values() if v),
